@@ -334,6 +334,12 @@ func ReadFromWebVTT(i io.Reader) (o *Subtitles, err error) {
 			}
 		}
 	}
+
+	// The scan stops silently on a read error or on a line that doesn't fit the scanner's buffer
+	if err = scanner.Err(); err != nil {
+		err = fmt.Errorf("astisub: scanning failed: %w", err)
+		return
+	}
 	return
 }
 
